@@ -1,5 +1,17 @@
 import Photon.Model.Http
-/-! # C13 — HTTP/1.1 framing (theorems below) -/
+/-!
+# C13 — HTTP/1.1 framing
+
+The specification `Photon.Http` is a function of the whole byte string of a message, so its result cannot depend on
+how the bytes were split across `recv()` calls; that the *implementation* (an incremental parser and incremental body
+readers) computes this function for every fragmentation and every read size is what `checks/c13.py` compares.
+Theorems here are about the coding itself:
+* `C13_chunked_roundtrip`: what the library's chunked writer emits for any sequence of non-empty chunks decodes to
+  exactly the concatenation of the chunks (sizes in hex of any length, data that itself contains CR LF);
+* `C13_chunked_inside_input`: decoded bytes are never more than the input holds (nothing from outside the message),
+  and the decoder is total (structural recursion on a fuel bounded by the input length: no endless loop);
+* `C13_length_body`: a Content-Length body is exactly the next `n` bytes (fewer only if the input ends).
+-/
 namespace Photon.Http
 
 theorem untilChar_length (c : Nat) : ∀ b : Bytes, (untilChar c b).1.length + (untilChar c b).2.length ≤ b.length
@@ -10,5 +22,169 @@ theorem untilChar_length (c : Nat) : ∀ b : Bytes, (untilChar c b).1.length + (
     split
     · simp
     · simp only [List.length_cons]; omega
+
+/-! ### hexadecimal sizes -/
+
+def IsHexDigitChar (b : Nat) : Prop := ∃ d, d < 16 ∧ b = hexDigitChar d
+
+theorem hexDigit_char (d : Nat) (h : d < 16) : hexDigit (hexDigitChar d) = some d := by
+  unfold hexDigit hexDigitChar
+  by_cases h10 : d < 10
+  · simp only [h10, if_true]
+    rw [if_pos (by omega)]
+    congr 1; omega
+  · simp only [h10, if_false]
+    rw [if_neg (by omega), if_pos (by omega)]
+    congr 1; omega
+
+theorem hexDigitChar_ne_CR (d : Nat) (h : d < 16) : hexDigitChar d ≠ CR := by
+  unfold hexDigitChar CR
+  split <;> omega
+
+theorem hexVal_snoc (l : Bytes) (hl : ∀ x ∈ l, IsHexDigitChar x) (d : Nat) (hd : d < 16) :
+    ∀ acc, hexVal (l ++ [hexDigitChar d]) acc = hexVal l acc * 16 + d := by
+  induction l with
+  | nil => intro acc; simp [hexVal, hexDigit_char d hd]
+  | cons x r ih =>
+    intro acc
+    obtain ⟨dx, hdx, rfl⟩ := hl x (by simp)
+    simp only [List.cons_append, hexVal, hexDigit_char dx hdx]
+    exact ih (fun y hy => hl y (by simp [hy])) _
+
+theorem toHex_spec : ∀ (fuel n : Nat), n < fuel →
+    (∀ x ∈ toHex fuel n, IsHexDigitChar x) ∧ hexVal (toHex fuel n) 0 = n ∧ toHex fuel n ≠ []
+  | 0, n, h => by omega
+  | fuel + 1, n, h => by
+    simp only [toHex]
+    by_cases h16 : n < 16
+    · simp only [h16, if_true]
+      refine ⟨?_, ?_, by simp⟩
+      · intro x hx; simp only [List.mem_singleton] at hx; exact ⟨n, h16, hx⟩
+      · simp [hexVal, hexDigit_char n h16]
+    · simp only [h16, if_false]
+      have hlt : n / 16 < fuel := by omega
+      obtain ⟨h1, h2, h3⟩ := toHex_spec fuel (n / 16) hlt
+      have hm : n % 16 < 16 := Nat.mod_lt _ (by omega)
+      refine ⟨?_, ?_, by simp⟩
+      · intro x hx
+        simp only [List.mem_append, List.mem_singleton] at hx
+        rcases hx with hx | hx
+        · exact h1 x hx
+        · exact ⟨n % 16, hm, hx⟩
+      · rw [hexVal_snoc _ h1 _ hm, h2]; omega
+
+theorem hexOf_spec (n : Nat) : (∀ x ∈ hexOf n, x ≠ CR) ∧ hexVal (hexOf n) 0 = n ∧ hexOf n ≠ [] := by
+  obtain ⟨h1, h2, h3⟩ := toHex_spec (n + 1) n (by omega)
+  refine ⟨?_, h2, h3⟩
+  intro x hx
+  obtain ⟨d, hd, rfl⟩ := h1 x hx
+  exact hexDigitChar_ne_CR d hd
+
+/-! ### finding the end of a size line -/
+
+theorem findSub_CRLF (d : Bytes) (hd : ∀ x ∈ d, x ≠ CR) (r : Bytes) :
+    findSub [CR, LF] (d ++ CR :: LF :: r) = some d.length := by
+  induction d with
+  | nil => simp [findSub, List.isPrefixOf]
+  | cons x t ih =>
+    have hx : x ≠ CR := hd x (by simp)
+    have := ih (fun y hy => hd y (by simp [hy]))
+    simp only [List.cons_append, findSub, List.isPrefixOf, this]
+    have : (CR == x) = false := by simp [Ne.symm hx]
+    simp [this]
+
+/-! ### the chunked coding round trip -/
+
+theorem decode_terminator (fuel : Nat) : decodeChunked (fuel + 1) [48, CR, LF, CR, LF] = some [] := by
+  have h := findSub_CRLF [48] (by intro x hx; simp at hx; subst hx; decide) [CR, LF]
+  simp only [List.cons_append, List.nil_append] at h
+  simp only [decodeChunked, h]
+  simp [hexVal, hexDigit]
+
+/-- **C13, chunked writer → reader round trip.** For every list of non-empty chunks (any sizes, any bytes — also
+    bytes that look like CR LF or like size lines), decoding what the chunked writer emits yields exactly the
+    concatenation of the chunks. (`fuel`: two steps per chunk plus one for the terminator.) -/
+theorem C13_chunked_roundtrip : ∀ (cs : List Bytes), (∀ c ∈ cs, c ≠ []) → ∀ fuel, 2 * cs.length + 1 ≤ fuel →
+    decodeChunked fuel (encodeChunked cs) = some cs.flatten
+  | [], _, fuel, hf => by
+    cases fuel with
+    | zero => omega
+    | succ f => simpa [encodeChunked] using decode_terminator f
+  | c :: cs, hne, fuel, hf => by
+    have hc : c ≠ [] := hne c (by simp)
+    have hlen : 0 < c.length := List.length_pos_iff.mpr hc
+    obtain ⟨hx1, hx2, hx3⟩ := hexOf_spec c.length
+    -- peel two steps of fuel
+    match fuel, hf with
+    | f + 2, hf =>
+      have ih := C13_chunked_roundtrip cs (fun x hx => hne x (by simp [hx])) f (by simp only [List.length_cons] at hf; omega)
+      -- shape of the encoded input
+      have hshape : encodeChunked (c :: cs) = hexOf c.length ++ CR :: LF :: (c ++ CR :: LF :: encodeChunked cs) := by
+        simp [encodeChunked, encodeChunk, List.append_assoc]
+      rw [hshape]
+      have hfind := findSub_CRLF (hexOf c.length) hx1 (c ++ CR :: LF :: encodeChunked cs)
+      have hp : (hexOf c.length).length ≠ 0 := by
+        intro h0; exact hx3 (List.length_eq_zero_iff.mp h0)
+      -- first step: the size line
+      rw [decodeChunked, hfind]
+      simp only [hp, if_false]
+      have htake : List.take (hexOf c.length).length (hexOf c.length ++ CR :: LF :: (c ++ CR :: LF :: encodeChunked cs)) = hexOf c.length :=
+        List.take_left
+      have hdrop : List.drop ((hexOf c.length).length + 2) (hexOf c.length ++ CR :: LF :: (c ++ CR :: LF :: encodeChunked cs))
+          = c ++ CR :: LF :: encodeChunked cs := by
+        rw [← List.drop_drop, List.drop_left]; rfl
+      rw [htake, hdrop, hx2]
+      have hn0 : c.length ≠ 0 := by omega
+      simp only [hn0, if_false]
+      rw [if_neg (by simp)]
+      have ht2 : List.take c.length (c ++ CR :: LF :: encodeChunked cs) = c := List.take_left
+      have hd2 : List.drop c.length (c ++ CR :: LF :: encodeChunked cs) = CR :: LF :: encodeChunked cs := List.drop_left
+      rw [ht2, hd2]
+      -- second step: the CRLF after the data is an empty line
+      have hfind2 : findSub [CR, LF] (CR :: LF :: encodeChunked cs) = some 0 := by simp [findSub, List.isPrefixOf]
+      rw [decodeChunked, hfind2]
+      simp only [if_true, Nat.zero_add, List.drop_succ_cons, List.drop_zero]
+      rw [ih]
+      simp
+
+/-- **C13, the decoded body comes from inside the message.** Whatever the input (malformed or not), the chunked
+    decoder terminates (it is a total function: structural recursion on the fuel) and returns no more bytes than the
+    input holds. -/
+theorem C13_chunked_inside_input : ∀ (fuel : Nat) (b out : Bytes), decodeChunked fuel b = some out → out.length ≤ b.length
+  | 0, b, out, h => by simp [decodeChunked] at h
+  | fuel + 1, b, out, h => by
+    simp only [decodeChunked] at h
+    split at h
+    · exact absurd h (by simp)
+    · next p hp =>
+      split at h
+      · have := C13_chunked_inside_input fuel _ out h
+        simp only [List.length_drop] at this; omega
+      · split at h
+        · simp only [Option.some.injEq] at h; subst h; simp
+        · split at h
+          · exact absurd h (by simp)
+          · next hle =>
+            cases hr : decodeChunked fuel (List.drop (hexVal (List.take p b) 0) (List.drop (p + 2) b)) with
+            | none => rw [hr] at h; simp at h
+            | some o =>
+              rw [hr] at h
+              simp only [Option.map_some, Option.some.injEq] at h
+              subst h
+              have := C13_chunked_inside_input fuel _ o hr
+              simp only [List.length_append, List.length_take, List.length_drop] at this ⊢
+              omega
+
+/-- **C13, a Content-Length body is the next `n` bytes** (all of what follows, if the input ends earlier), and a
+    close-delimited body is everything that follows. -/
+theorem C13_length_body (n : Nat) (after : Bytes) :
+    bodyOf (.length n) after = after.take n ∧ (bodyOf (.length n) after).length = min n after.length ∧
+    bodyOf .untilClose after = after := by
+  simp [bodyOf]
+
+/-! ### non-vacuity -/
+example : decodeChunked 10 (encodeChunked [[1, 13, 10, 2], [7]]) = some [1, 13, 10, 2, 7] := by decide
+example : (parseRequest ([71, 69, 84, 32, 47, 120, 32, 72, 84, 84, 80, 47, 49, 46, 49, 13, 10, 67, 111, 110, 116, 101, 110, 116, 45, 76, 101,
+    110, 103, 116, 104, 58, 32, 51, 13, 10, 13, 10, 97, 98, 99, 100, 101, 102])).map (·.body) = some [97, 98, 99] := by decide +kernel
 
 end Photon.Http
